@@ -3,16 +3,22 @@
 (* Leg C for C47 (step trace).  A single driver goroutine changes the      *)
 (* files / environment and calls Reloader.apply (through the export shim,  *)
 (* no real-time watcher), so the order of lines is the order of events.    *)
-(*   case    header of a history (in.cfg0, in.env0, in.ops)                *)
+(*   case    header of a history (in.cfg0, in.env0, in.tol, in.ops)        *)
 (*   Change  a change the driver made (op, f, c) - informational           *)
 (*   Apply   outcome asked of the reload endpoint; ins = the input files   *)
 (*           as found on disk when apply returned (nothing changes them    *)
-(*           during apply), env; calls/oks counted by the endpoint; err;   *)
+(*           during apply), env ("unset" when the variable is unset), tol  *)
+(*           (tolerance for unset variables, configuration); calls/oks     *)
+(*           counted by the endpoint; err;                                 *)
 (*           outs = output files after apply; atok = output files at the   *)
 (*           moment the endpoint answered 200                              *)
 (* Judged with the property-level operators of Reloader.tla; the spec only *)
 (* carries the property's memory P (last successfully reloaded content,    *)
-(* pending failed reload) from apply to apply.                             *)
+(* pending failed reload) from apply to apply.  The eventual clause of the *)
+(* statement (outputs = expanded inputs, no orphan outputs) is judged at   *)
+(* every quiescent point: after every apply that completed without error   *)
+(* and reloaded successfully or had nothing to reload - including the      *)
+(* first one after an apply that failed part-way (recovery).               *)
 (***************************************************************************)
 EXTENDS TraceLib, Reloader
 
@@ -27,11 +33,13 @@ Change == IsEvent("Change") /\ UNCHANGED <<P, A>>
 Apply == /\ IsEvent("Apply")
          /\ LET e == Trace[l]
                 snap == Snapshot(e.ins)
-            IN /\ CaseReject(l, e, ApplyClauses(P, e.ins, e.env, e))
-               (* model conformance (never a verdict): does the algorithm summary predict the trigger? *)
-               /\ (IF (e.calls > 0) # ATrigger(A, snap) THEN PrintT(<<"DRIFT", l, e["case"]>>) ELSE TRUE)
-               /\ P' = PNext(P, snap, e.env, e.calls, e.oks)
-               /\ A' = ANext(A, snap, e.calls, e.oks)
+            IN /\ CaseReject(l, e, ApplyClauses(P, e.ins, e.env, e.tol, e))
+               (* model conformance (never a verdict): does the algorithm summary predict the trigger, *)
+               (* and does the apply fail exactly under the unset-variable fault?                       *)
+               /\ (IF (e.err = "" /\ (e.calls > 0) # ATrigger(A, snap)) \/ ((e.err # "") # MayFail(e.ins, e.env, e.tol))
+                     THEN PrintT(<<"DRIFT", l, e["case"]>>) ELSE TRUE)
+               /\ P' = PNext(P, snap, e.env, e.err, e.calls, e.oks)
+               /\ A' = ANext(A, snap, e.err, e.calls, e.oks)
 
 TraceNext == Header \/ Change \/ Apply
 TraceSpec == TraceInit /\ [][TraceNext]_tvars
